@@ -750,10 +750,15 @@ func TestC16(t *testing.T) {
 	rng := emit.NewRand(emit.NewRand(emit.Seed()).U64() ^ (emit.Seed() * 0xD6E8FEB86659FD93))
 	w := emit.NewWriter("Model.Tail Oracle.C16", "case16", "chk16")
 	w.PerShard(150)
-	w.Rule = "one case = one Start() of a freshly configured Syncer (fresh = restart/reconfiguration) over the real Store (in-memory datastore, " +
-		"Append made synchronous) and a scripted getter serving a generated chain, in virtual time; scenarios chain 1-3 such steps on one store " +
-		"while the network chain grows; a class is (chain kind, tail mode, outcome, direction the tail moved, sign of blockTime, empty store, orphans left, " +
-		"network lookups); non-trivial = Start succeeded and the tail moved"
+	w.Rule = "one case = one recomputation of the tail through the public API: Start() of a freshly configured Syncer (restart / reconfiguration), or " +
+		"Head() of the Syncer left running by the previous step where that cannot race with the sync loop (new head adjacent to the store head, or local head expired); " +
+		"real sync.Syncer over the real store.Store (in-memory datastore, Append made synchronous) and a scripted getter serving a generated chain, in synctest virtual time; " +
+		"scenarios chain 1-4 such steps on one store while the network chain grows and the clock advances; generators: 13 witness scenarios (always), random scenarios over " +
+		"{exact, fast, slow, halted, jitter, irregular, same-time, unordered} chains x units 1ns..1h x blockTime {unset, 0, unit, 2*unit, unit/2, negative} x window multiples and " +
+		"boundary-aimed windows (tailTimeDiff in {-1,0,1}, {window-1,window,window+1}, expected tail time at a stored header's time +-1) x trusting period (large / small: expiry) x " +
+		"SyncFromHeight / SyncFromHash at positions around tail, head, head+1, network head and beyond x invalid parameter sets; the young-chain boundary of estimateTailHeight; " +
+		"a complete small-scope sweep of findTailHeight; a class is (chain kind, tail mode, outcome, direction the tail moved, sign of blockTime, empty store, orphans left, " +
+		"network lookups, driven through Start or Head); non-trivial = the call succeeded and the tail moved"
 	var scs []scenario
 	scs = append(scs, witnesses()...)
 	nrand := 400
